@@ -243,17 +243,20 @@ func (p *ProofD) wellFormed(pk *gabikeys.PublicKey) bool {
 }
 
 func (p *ProofD) reconstructRangeProofStructures(pk *gabikeys.PublicKey) error {
-	p.cachedRangeStructures = make(map[int][]*rangeproof.ProofStructure)
+	// Only cache a complete set of structures: were a partially filled cache left behind on
+	// error, a next verification of this proof would skip the range proofs missing from it.
+	structures := make(map[int][]*rangeproof.ProofStructure)
 	for index, proofs := range p.RangeProofs {
-		p.cachedRangeStructures[index] = []*rangeproof.ProofStructure{}
+		structures[index] = []*rangeproof.ProofStructure{}
 		for _, proof := range proofs {
 			s, err := proof.ExtractStructure(index, pk)
 			if err != nil {
 				return err
 			}
-			p.cachedRangeStructures[index] = append(p.cachedRangeStructures[index], s)
+			structures[index] = append(structures[index], s)
 		}
 	}
+	p.cachedRangeStructures = structures
 	return nil
 }
 
